@@ -778,7 +778,7 @@ def run(c):
                  ("Pipes2", ["r1"], ["p1"], ["e1"], ["ca1"], 2, ["x1"], 0, 2),
                  ("Pipes2", ["r1", "r2"], ["p1"], ["e1"], ["ca1"], 4, ["x1"], 0, 1)]
     walks = [(2, 1, 1, 2), (2, 2, 1, 1)] if qk else [(2, 2, 1, 2), (3, 3, 1, 1), (2, 1, 1, 4)]
-    ovs = [(2, 1, ["dangling"])] if qk else [(3, 1, []), (2, 1, ["dangling", "unknownkey"]), (2, 2, [])]
+    ovs = [(2, 1, ["dangling"])] if qk else [(3, 1, []), (2, 1, ["dangling", "unknownkey"]), (1, 3, [])]
     # the parts are independent: they run side by side (own PRNG each, see Part)
     from concurrent.futures import ThreadPoolExecutor
     jobs = [(part_docs, k, u) for k, u in enumerate(universes)] + [(part_walk, k, w) for k, w in enumerate(walks)] + \
